@@ -58,10 +58,10 @@ func init() {
 						add(3, t, cs...)
 					}
 					if tier == "thorough" {
-						for _, cs := range [][]int{{1, 1, 3}, {3, 3, 0}} {
-						add(3, t, cs...)
-					}
-					for _, cs := range [][]int{{0, 0, 0, 0}, {0, 1, 2, 3}, {2, 2, 2, 2}} {
+						for _, cs := range [][]int{{1, 1, 3}} {
+							add(3, t, cs...)
+						}
+						for _, cs := range [][]int{{0, 0, 0, 0}, {0, 1, 2, 2}, {2, 2, 2, 2}} {
 							add(4, t, cs...)
 						}
 					}
@@ -71,7 +71,7 @@ func init() {
 		},
 		Bounds: map[string]string{
 			"quick":    "lists of 0..3 fields (all ordered pairs of classes; triples over the size classes 1/2/4 registers in sorted and in widest-first order); per field: server in {A,B} (case-split), unit id, address (all 65536), byte order, string length, bit number symbolic; field classes case-split over {Uint16, Int8, Uint32, Float64, String, Bit(any bit 0..255), Coil, invalid type}; split targets FC1-TCP, FC2-RTU, FC3-TCP, FC4-RTU; additionally pairs of fields on adversarial CONCRETE targets (servers {h1,h11,h1_1} x units {1,2,11,12,21}: names that collide when concatenated without a separator); map iteration order: all permutations up to 3 groups",
-			"thorough": "all 8 split targets; additionally selected lists of 4 fields",
+			"thorough": "all 8 split targets; additionally the triple (Uint32, Uint32, String) and lists of 4 numeric fields (4 x Uint16, Uint16+Uint32+2 x Float64, 4 x Float64)",
 		},
 		Outside:   []string{"more than 3 (thorough: 4) fields", "more than 2 distinct server strings", "field types not in the class list are represented by a type of the same register size"},
 		Stubs:     []string{"fmt.Sprintf(\"%v_%v_%v\") modelled as an injective encoding of its arguments; sort.Sort runs the real insertion sort (n<=12); range over map explores every iteration order"},
